@@ -1,5 +1,6 @@
 //! Correspondence harness: calls the real helgoboss-midi crate in-process and prints a transcript
 //! `<request> | <cells>` that the Lean driver replays against the model and the executable specification.
+mod alloc_probe;
 mod ctors;
 mod gen_conv;
 mod msgs;
@@ -8,8 +9,13 @@ mod obs;
 #[cfg(feature = "std")]
 mod poll;
 mod scan;
+#[cfg(feature = "with_serde")]
+mod serde_probe;
 
 use obs::Obs;
+
+#[global_allocator]
+static GLOBAL: alloc_probe::Counting = alloc_probe::Counting;
 use std::io::{BufRead, BufWriter, Write};
 
 /// Mutable state a request can refer to (scanner tables etc.).
@@ -28,6 +34,8 @@ pub fn eval_request(st: &mut State, req: &str) -> Option<Obs> {
         ["pn", rest @ ..] => scan::eval_pn(&mut st.tables, rest),
         #[cfg(feature = "std")]
         ["pp", rest @ ..] => poll::eval_pp(&mut st.ptables, rest),
+        #[cfg(feature = "with_serde")]
+        ["de", rest @ ..] => serde_probe::eval_de(rest),
         ["cnpred", n] => scan::cnpred_obs(n.parse().ok()?),
         ["enc14", which, c, n, v] => Some(scan::enc14_obs(which, c.parse().ok()?, n.parse().ok()?, v.parse().ok()?)),
         ["encpn", which, i, c, n, v, order] => Some(scan::encpn_obs(which, i.parse().ok()?, c.parse().ok()?, n.parse().ok()?, v.parse().ok()?, *order == "lsb")),
@@ -328,6 +336,9 @@ fn main() {
             out.stat("evaluations", 128 + gen_conv::controller_constants().len() as u64);
             out.stat("nontrivial", 128);
         }
+        #[cfg(feature = "with_serde")]
+        "serde-lines" => serde_probe::lines(&mut out, seed, tier),
+        "alloc-probe" => alloc_probe::probe(&mut out, seed, tier),
         "cc-roundtrip" => scan::roundtrips(&mut out, "cc", seed, if tier == "thorough" { 2_000_000 } else { 100_000 }),
         "pn-roundtrip" => scan::roundtrips(&mut out, "pn", seed, if tier == "thorough" { 2_000_000 } else { 100_000 }),
         // factory constructors: named (block digests), generic, test_util shorthands
